@@ -149,6 +149,13 @@ class ScenarioInterp(Interp):
             rec.unsat += 1
             return True
         t0 = time.time()
+        dl = self.opts.get('deadline')
+        if dl and t0 > dl:
+            # the obligation's wall-clock budget is spent: undecided, reported as inconclusive
+            rec.unknown += 1
+            if 'time budget exceeded' not in self.result.unsupported:
+                self.result.unsupported.append('time budget exceeded')
+            return False
         neg = smt.Not(prop) if not isinstance(prop, bool) else True
         # 1. short attempt  2. counterexample probes (inputs pinned)  3. full-length attempt
         self.ctx.set_timeout(min(self.check_timeout_ms, 4000))
